@@ -165,3 +165,453 @@ def run_r1(prog, res, floor=0):
     for fn in prog.all_funcs():
         r1_function(fn, res, stat)
     return stat
+
+
+# ------------------------------------------------------------------ R3(b): fresh value passed unrooted
+
+ALLOC_PRIMS = {"sexp_alloc_tagged_aux", "sexp_alloc"}
+
+
+# functions whose result is always reachable from a strongly held table (so never "fresh and
+# unreferenced"), although they allocate it: confirmed by reading
+NOT_FRESH = {
+    "sexp_intern": "the symbol table holds every interned symbol",
+    "sexp_string_to_symbol_op": "interns",
+    "sexp_lookup_type_op": "type objects live in the context's type table",
+    "sexp_register_type_op": "stored in the context's type table before returning",
+    "sexp_register_simple_type_op": "stored in the context's type table before returning",
+}
+# boxing functions that return an immediate for small arguments
+INT_BOXERS = {"sexp_make_integer", "sexp_make_unsigned_integer", "sexp_make_integer_from_lsint",
+              "sexp_make_unsigned_integer_from_luint"}
+
+
+def producers(prog, cg, strict=True):
+    """functions whose return value is a freshly allocated object that nothing else references yet
+    (under-approximation: the returned local is defined from an allocation / another producer and is
+    never passed to another function or stored anywhere)"""
+    prod = set()
+    changed = True
+    rounds = 0
+    while changed and rounds < 6:
+        changed = False
+        rounds += 1
+        for fn in cg.funcs:
+            if fn.name in prod or fn.ret_type != "struct sexp_struct *":
+                continue
+            ok = False
+            nrets = 0
+            nfresh = 0
+            for i, nd in enumerate(fn.nodes):
+                if nd["k"] != "ret" or not nd.get("c"):
+                    continue
+                nrets += 1
+                r = fn.strip(nd["c"][0])
+                rn = fn.nodes[r]
+                cands = []
+                if rn["k"] == "call":
+                    cands = [r]
+                elif rn["k"] == "ref" and "d" in rn and rn["d"] not in fn.params:
+                    vid = rn["d"]
+                    escaped = False
+                    defs = []
+                    for j, n2 in enumerate(fn.nodes):
+                        if n2["k"] == "call":
+                            for a in n2["c"][1:]:
+                                a0 = fn.strip(a)
+                                if fn.nodes[a0]["k"] == "ref" and fn.nodes[a0].get("d") == vid:
+                                    escaped = True
+                        if n2["k"] == "bin" and n2["o"] == "=":
+                            l, rr = fn.strip(n2["c"][0]), fn.strip(n2["c"][1])
+                            if fn.nodes[l]["k"] == "ref" and fn.nodes[l].get("d") == vid:
+                                defs.append(rr)
+                            elif fn.nodes[rr]["k"] == "ref" and fn.nodes[rr].get("d") == vid:
+                                escaped = True     # stored somewhere
+                        if n2["k"] == "decl" and n2.get("d") == vid and n2.get("c"):
+                            defs.append(fn.strip(n2["c"][0]))
+                    if strict:
+                        if not escaped and defs and all(fn.nodes[d]["k"] == "call" for d in defs):
+                            cands = defs
+                    else:
+                        cands = [d for d in defs if fn.nodes[d]["k"] == "call" and
+                                 (fn.nodes[d].get("o") in ALLOC_PRIMS or fn.nodes[d].get("o") in prod)]
+                if cands and all(fn.nodes[c].get("o") in ALLOC_PRIMS or fn.nodes[c].get("o") in prod for c in cands):
+                    nfresh += 1
+            ok = nrets > 0 and (nfresh == nrets if strict else nfresh > 0)
+            if fn.name in NOT_FRESH:
+                ok = False
+            if ok:
+                prod.add(fn.name)
+                changed = True
+    return prod
+
+
+def must_alloc_functions(prog, cg):
+    """functions on which every path from entry to a normal return passes through an allocation
+    (a call to an allocation primitive or to another such function)"""
+    from cfg import PathExplorer
+    must = set(ALLOC_PRIMS)
+    changed = True
+    rounds = 0
+    while changed and rounds < 6:
+        changed = False
+        rounds += 1
+        for fn in cg.funcs:
+            if fn.name in must:
+                continue
+            calls = {i for i, nd in enumerate(fn.nodes) if nd["k"] == "call" and nd.get("o") in must}
+            if not calls:
+                continue
+            bad = []
+
+            def transfer(bid, e, st, calls=calls):
+                if e in calls:
+                    return [True]
+                return None
+
+            def at_exit(bid, st, key, bad=bad):
+                if not st:
+                    bad.append(bid)
+
+            ex = PathExplorer(fn, transfer, None, at_exit, limit=20000)
+            ex.run(False)
+            if not bad and not ex.truncated:
+                must.add(fn.name)
+                changed = True
+    return must
+
+
+def _must_execute(fn, node):
+    """every path from entry to a normal return evaluates `node`"""
+    from cfg import PathExplorer
+    bad = []
+
+    def transfer(bid, e, st):
+        return [True] if e == node else None
+
+    def at_exit(bid, st, key):
+        if not st:
+            bad.append(bid)
+    ex = PathExplorer(fn, transfer, None, at_exit, limit=20000)
+    ex.run(False)
+    return not bad and not ex.truncated
+
+
+def _propagate_unsafe(cg, unsafe):
+    """a parameter handed on - on every path - to a parameter that is already unsafe is unsafe too"""
+    changed = True
+    while changed:
+        changed = False
+        for fn in cg.funcs:
+            for i, nd in enumerate(fn.nodes):
+                if nd["k"] == "call" and nd.get("o"):
+                    for ai, a in enumerate(nd["c"][1:]):
+                        if (nd["o"], ai) in unsafe:
+                            a0 = fn.strip(a)
+                            if fn.nodes[a0]["k"] == "ref" and fn.nodes[a0].get("d") in fn.params:
+                                key = (fn.name, fn.params.index(fn.nodes[a0]["d"]))
+                                if key not in unsafe and _must_execute(fn, i):
+                                    unsafe.add(key)
+                                    changed = True
+    return unsafe
+
+
+def unsafe_params(prog, cg, must):
+    """(function name, param index): on every path to some read of the parameter an allocation has
+    already happened inside the callee (the allocating call dominates the read)"""
+    from cfg import elem_positions, enclosing_elem, dominators, dominates
+    unsafe = set()
+    for fn in cg.funcs:
+        sps = [(i, v) for i, v in enumerate(fn.params) if fn.var_type(v) == "struct sexp_struct *" and i > 0]
+        if not sps:
+            continue
+        gc_calls = [i for i, nd in enumerate(fn.nodes) if nd["k"] == "call" and nd.get("o") in must]
+        if not gc_calls:
+            continue
+        pos = elem_positions(fn)
+        dom = dominators(fn)
+        for (pi, vid) in sps:
+            reads = [i for i, nd in enumerate(fn.nodes) if nd["k"] == "ref" and nd.get("d") == vid]
+            hit = False
+            for c in gc_calls:
+                pc = enclosing_elem(fn, c, pos)
+                inside = set(fn.subtree(c))
+                for r in reads:
+                    if r in inside:
+                        continue
+                    pr = enclosing_elem(fn, r, pos)
+                    if pc and pr and dominates(dom, pc, pr):
+                        hit = True
+                        break
+                if hit:
+                    break
+            if hit:
+                unsafe.add((fn.name, pi))
+    return _propagate_unsafe(cg, unsafe)
+
+
+def run_r3b(prog, res, cg):
+    stat = res.stat("C02.R3b", "a freshly allocated object is never handed, unrooted, to a parameter that its callee reads "
+                    "after a collection point (nor evaluated next to another allocating argument)", floor=0)
+    must = must_alloc_functions(prog, cg)
+    # R3b asks "may this call return an object nothing else references?" (some return path is fresh)
+    prod = producers(prog, cg, strict=False)
+    unsafe = unsafe_params(prog, cg, must)
+    res.notes.append("R3b: %d producer functions, %d must-allocate functions, %d unsafe (function, parameter) pairs"
+                     % (len(prod), len(must), len(unsafe)))
+    for fn in prog.all_funcs():
+        if fn.unit.name == "main.c":
+            continue       # REPL driver, not library code
+        for i, nd in enumerate(fn.nodes):
+            if nd["k"] != "call" or not nd.get("o"):
+                continue
+            args = nd["c"][1:]
+            fresh = []
+            for ai, a in enumerate(args):
+                a0 = fn.strip(a)
+                if fn.nodes[a0]["k"] == "call" and fn.nodes[a0].get("o") in prod:
+                    if fn.nodes[a0]["o"] in INT_BOXERS and all(fn.const_val(x) is not None for x in fn.nodes[a0]["c"][2:]):
+                        continue      # boxing a small constant yields an immediate
+                    fresh.append((ai, a0))
+            if not fresh:
+                continue
+            stat.sites += 1
+            stat.obligations += 1
+            bad = None
+            for (ai, a0) in fresh:
+                if (nd["o"], ai) in unsafe:
+                    bad = ("%s(...) is passed as argument %d of %s, which reads that parameter after a call that may "
+                           "collect" % (fn.nodes[a0]["o"], ai + 1, nd["o"]), fn.nodes[a0]["o"])
+            if bad is None and len(fresh) >= 2 and fn.nodes[fresh[1][1]]["o"] in must:
+                bad = ("%s(...) and %s(...) are both evaluated as arguments of %s: whichever runs first is unrooted while "
+                       "the other allocates" % (fn.nodes[fresh[0][1]]["o"], fn.nodes[fresh[1][1]]["o"], nd["o"]),
+                       fn.nodes[fresh[0][1]]["o"])
+            if bad is None:
+                stat.discharged += 1
+                stat.sample({"site": fn.where(i), "function": fn.name, "call": fn.txt(i)[:70]}, limit=3)
+            else:
+                res.add(Finding("C02", "R3b.unrooted-fresh-argument", fn.name, "%s <- %s" % (nd["o"], bad[1]), fn.where(i),
+                                "in %s: %s; the new object is referenced only from a C temporary at that moment, so a "
+                                "collection there reclaims it (and runs its finalizer) although the caller still uses it"
+                                % (fn.name, bad[0]), unit=fn.unit.display))
+    return stat
+
+
+def rooted_locals(fn):
+    """locals whose address is registered in a root node: (node).var = &local"""
+    out = set()
+    for nd in fn.nodes:
+        if nd["k"] == "bin" and nd["o"] == "=":
+            l = fn.strip(nd["c"][0])
+            if fn.nodes[l]["k"] == "mem" and fn.nodes[l]["o"] == "var":
+                r = fn.strip(nd["c"][1])
+                if fn.nodes[r]["k"] == "un" and fn.nodes[r]["o"] == "&":
+                    x = fn.strip(fn.nodes[r]["c"][0])
+                    if fn.nodes[x]["k"] == "ref" and "d" in fn.nodes[x]:
+                        out.add(fn.nodes[x]["d"])
+    return out
+
+
+def run_r3a(prog, res, cg, must=None, prod=None):
+    from cfg import elem_positions, enclosing_elem, dominators, dominates, redefined_between
+    stat = res.stat("C02.R3a", "a freshly allocated object held only in an unrooted C local is not used after a later "
+                    "allocation in the same function", floor=100)
+    must = must or must_alloc_functions(prog, cg)
+    prod = prod or producers(prog, cg, strict=False)
+    for fn in prog.all_funcs():
+        if fn.unit.name in ("main.c",) or fn.unit.display.startswith("tests/"):
+            continue       # drivers / embedding test programs, not library code
+        rooted = rooted_locals(fn)
+        defs = []
+        for i, nd in enumerate(fn.nodes):
+            rhs = None
+            vid = None
+            if nd["k"] == "bin" and nd["o"] == "=":
+                l = fn.strip(nd["c"][0])
+                if fn.nodes[l]["k"] == "ref" and "d" in fn.nodes[l]:
+                    vid, rhs = fn.nodes[l]["d"], fn.strip(nd["c"][1])
+            elif nd["k"] == "decl" and "d" in nd and nd.get("c"):
+                vid, rhs = nd["d"], fn.strip(nd["c"][0])
+            if vid is None or vid in fn.params or vid in rooted:
+                continue
+            if fn.var_type(vid) != "struct sexp_struct *":
+                continue
+            if fn.nodes[rhs]["k"] == "call" and fn.nodes[rhs].get("o") in prod:
+                defs.append((i, vid, rhs))
+        if not defs:
+            continue
+        pos = elem_positions(fn)
+        dom = dominators(fn)
+        allocs = [i for i, nd in enumerate(fn.nodes) if nd["k"] == "call" and nd.get("o") in must]
+        for (d, vid, rhs) in defs:
+            stat.sites += 1
+            stat.obligations += 1
+            pd = enclosing_elem(fn, d, pos)
+            name = fn.vars[vid]["n"]
+            def _is_write(i):
+                pn = fn.parent(i)
+                return pn is not None and fn.nodes[pn]["k"] == "bin" and fn.nodes[pn]["o"] == "=" and \
+                    fn.strip(fn.nodes[pn]["c"][0]) == i
+            reads = [i for i, nd in enumerate(fn.nodes) if nd["k"] == "ref" and nd.get("d") == vid
+                     and i not in fn.subtree(d) and not _is_write(i)]
+            # stores that make the object reachable from elsewhere: X->f = v / a[i] = v / rooted = v
+            published = []
+            for i, nd in enumerate(fn.nodes):
+                if nd["k"] == "bin" and nd["o"] == "=":
+                    r = fn.strip(nd["c"][1])
+                    if fn.nodes[r]["k"] == "ref" and fn.nodes[r].get("d") == vid:
+                        l = fn.strip(nd["c"][0])
+                        ln = fn.nodes[l]
+                        if ln["k"] in ("mem", "idx") or (ln["k"] == "ref" and (ln.get("d") in rooted or ln.get("dk") == "g")):
+                            published.append(enclosing_elem(fn, i, pos))
+                if nd["k"] == "call":
+                    # passed to a function that may register it (sexp_preserve_object, sexp_push ...): treat as published
+                    for a in nd["c"][1:]:
+                        a0 = fn.strip(a)
+                        if fn.nodes[a0]["k"] == "ref" and fn.nodes[a0].get("d") == vid and nd.get("o") not in must:
+                            pass
+            bad = None
+            for c in allocs:
+                if c == rhs or c in fn.subtree(d):
+                    continue
+                pc = enclosing_elem(fn, c, pos)
+                if not (pd and pc and dominates(dom, pd, pc)):
+                    continue
+                cargs = fn.nodes[c]["c"][1:]
+                # allocating *through* the fresh object (a new context) marks it first
+                if cargs and fn.nodes[fn.strip(cargs[0])]["k"] == "ref" and fn.nodes[fn.strip(cargs[0])].get("d") == vid:
+                    continue
+                if any(p and dominates(dom, p, pc) for p in published):
+                    continue
+                if redefined_between(fn, vid, pd, pc, pos):
+                    continue
+                for r in reads:
+                    pr = enclosing_elem(fn, r, pos)
+                    if r in fn.subtree(c):
+                        continue      # passed to the allocating call itself: R3b's business
+                    if pr and dominates(dom, pc, pr) and not redefined_between(fn, vid, pc, pr, pos):
+                        bad = (c, r)
+                        break
+                if bad:
+                    break
+            if not bad:
+                stat.discharged += 1
+                stat.sample({"function": fn.name, "local": name, "from": fn.nodes[rhs]["o"], "where": fn.where(d)}, limit=3)
+            else:
+                c, r = bad
+                res.add(Finding("C02", "R3a.unrooted-fresh-local", fn.name, "%s = %s(...) across %s" %
+                                (name, fn.nodes[rhs]["o"], fn.nodes[c]["o"]), fn.where(d),
+                                "%s holds the result of %s only in the unrooted local `%s`, then calls %s (which always "
+                                "allocates) at %s and uses `%s` again afterwards at %s: a collection at that allocation "
+                                "reclaims the object" % (fn.name, fn.nodes[rhs]["o"], name, fn.nodes[c]["o"], fn.where(c),
+                                                         name, fn.where(r)), unit=fn.unit.display))
+    return stat
+
+
+def witnesses_r3(prog, res):
+    """positive/negative examples for R3a/R3b analysed together with the real units (the rules'
+    expected count on a healthy tree is zero, so they must be seen firing on every run)"""
+    import os
+    import extract
+    import callgraph
+    import report
+    from facts import Program
+    path = os.path.join(extract.VERIF, "selftest", "witness", "c02r3.c")
+    wp = extract.load_program(prog.config, only={"<none>"}, extra_sources=[(path, [])])
+    both = Program(list(prog.units) + list(wp.units))
+    both.config = prog.config
+    cg = callgraph.CallGraph(both)
+    r2 = report.Result("C02", "quick")
+    run_r3b(both, r2, cg)
+    run_r3a(both, r2, cg)
+    hit = {f.function for f in r2.findings}
+    names = [n for n in wp.units[0].functions if n.startswith("witness_")]
+    if len(names) < 4:
+        res.broken.append("R3 witness file yielded only %d functions" % len(names))
+    for n in sorted(names):
+        if n.startswith("witness_bad_"):
+            res.witness.append((n, n in hit))
+        else:
+            res.witness.append((n, n not in hit))
+
+
+# ------------------------------------------------------------------ R6: object words embedded in bytecode
+
+def _immediate_expr(fn, n, depth=0, prog=None):
+    """expression certainly denotes an immediate: an integer expression cast to sexp, or a local all of
+    whose definitions are such expressions"""
+    from cfg import local_defs
+    n0 = n
+    while fn.nodes[n0]["k"] == "cast":
+        inner = fn.nodes[n0]["c"][0]
+        if not (fn.type(inner) or "").endswith("*"):
+            return True
+        n0 = inner
+    nd = fn.nodes[n0]
+    if "v" in nd and nd["k"] in ("int", "const"):
+        return True
+    if nd["k"] == "ref" and "d" in nd and depth < 3:
+        defs = local_defs(fn, nd["d"])
+        return bool(defs) and all(r is not None and _immediate_expr(fn, r, depth + 1, prog) for (_d, r) in defs)
+    if nd["k"] == "cond":
+        return _immediate_expr(fn, nd["c"][1], depth + 1, prog) and _immediate_expr(fn, nd["c"][2], depth + 1, prog)
+    if nd["k"] == "call" and nd.get("o") and prog is not None and depth < 3:
+        # a callee all of whose returns are immediates (sexp_length_op: fixnum or #f)
+        callee = prog.func(nd["o"], fn.unit)
+        if callee is not None:
+            rets = [x for x, n2 in enumerate(callee.nodes) if n2["k"] == "ret" and n2.get("c")]
+            return bool(rets) and all(_immediate_expr(callee, callee.nodes[r]["c"][0], depth + 1, prog) for r in rets)
+    return False
+
+
+def run_r6(prog, res):
+    from cfg import PathExplorer
+    stat = res.stat("C02.R6", "every object word emitted into bytecode is also pushed on the bytecode's literal list "
+                    "(the collector does not scan bytecode bodies)", floor=4)
+    for fn in prog.all_funcs():
+        if fn.unit.name not in ("vm.c", "eval.c", "simplify.c", "rest.c", "profile.c", "ast.c"):
+            continue
+        emits = []
+        for i, nd in enumerate(fn.nodes):
+            if nd["k"] == "call" and nd.get("o") == "sexp_emit_word" and len(nd["c"]) > 2:
+                a = nd["c"][2]
+                x = a
+                while fn.nodes[x]["k"] == "cast":
+                    x = fn.nodes[x]["c"][0]
+                if fn.type(x) == "struct sexp_struct *":
+                    emits.append((i, x))
+        for (e, x) in emits:
+            stat.sites += 1
+            if _immediate_expr(fn, x, 0, prog):
+                continue
+            stat.obligations += 1
+            txt = fn.txt(x)
+            pres = {j for j, n2 in enumerate(fn.nodes) if n2["k"] == "call" and n2.get("o") == "bytecode_preserve"
+                    and len(n2["c"]) > 2 and fn.txt(n2["c"][2]) == txt}
+            ok = False
+            if pres:
+                bad = []
+
+                def transfer(bid, el, st):
+                    if el == e:
+                        return ["emitted"]
+                    if el in pres and st == "emitted":
+                        return ["preserved"]
+                    return None
+
+                def at_exit(bid, st, key):
+                    if st == "emitted":
+                        bad.append(bid)
+                ex = PathExplorer(fn, transfer, None, at_exit)
+                ex.run("start")
+                ok = not bad
+            if ok:
+                stat.discharged += 1
+                stat.sample({"site": fn.where(e), "function": fn.name, "word": txt[:50], "preserved_by": "bytecode_preserve(ctx, %s)" % txt[:40]})
+            else:
+                res.add(Finding("C02", "R6.unpreserved-bytecode-literal", fn.name, txt[:60], fn.where(e),
+                                "%s embeds the address of `%s` in the bytecode but does not (on every path) push it on the "
+                                "bytecode's literal list with bytecode_preserve: the collector does not scan bytecode bodies, so "
+                                "the object can be reclaimed while compiled code still points at it" % (fn.name, txt[:60]),
+                                unit=fn.unit.display))
+    return stat
